@@ -3,6 +3,7 @@ package main
 import (
 	"flag"
 	"fmt"
+	"go/types"
 	"os"
 	"path/filepath"
 	"sort"
@@ -168,16 +169,45 @@ func (r *Run) verifyHelpers(ld *Loaded, filter func(c *Contract) bool) {
 				c.Status = "failed"
 			}
 		}
+		var bad []*OblResult
 		for i, o := range res {
-			if o.Status != "discharged" && owners[i].Layer == "H" {
+			if o.Status != "discharged" && (owners[i].Layer == "H" || !ownsProp(owners[i], r.Prop)) {
 				// a helper's own contract failing is not a property violation:
 				// its callers are verified against its body instead
 				r.Stale = append(r.Stale, fmt.Sprintf("%s: %s %v", o.Name, o.Status, o.Failed))
 				continue
 			}
+			if owners[i].Layer != "H" && !ownsProp(owners[i], r.Prop) {
+				continue // a Layer-P contract of another property: not this check's obligation
+			}
 			r.add(o)
+			if o.Status != "discharged" {
+				bad = append(bad, o)
+			}
+		}
+		r.reportFailures(ld, bad, nil)
+	}
+}
+
+// verifyLayerP re-reports the hand-written contracts tagged with prop as this
+// property's own obligations (they were discharged by verifyHelpers).
+func (r *Run) verifyLayerP(ld *Loaded, prop string) {
+	for _, c := range ld.contracts {
+		if ownsProp(c, prop) && c.Layer == "H" {
+			r.Notes["contract:"+c.Key] = c.Status
 		}
 	}
+}
+
+func ptrTo(t types.Type) types.Type { return types.NewPointer(t) }
+
+func ownsProp(c *Contract, prop string) bool {
+	for _, p := range c.Props {
+		if p == prop {
+			return true
+		}
+	}
+	return false
 }
 
 func (c *Contract) Special() bool {
